@@ -92,6 +92,32 @@ fn bad_point(r: &mut Rng, proto: &[Rec]) -> Point {
 const BAD_NAMES: [&str; 8] = ["", "xmlfoo", "XMLns", "a.b", "a b", "äöü", "a:b", "q/"];
 const NON_NCNAME: [&str; 3] = ["0129", "-_-", "9a"];
 
+/// A malformed namespace or attribute name: the fixed menu, or a long one (55..=140 bytes) with a
+/// multi-byte character at a drawn position (names end up in error messages and buffers).
+fn bad_name(r: &mut Rng) -> String {
+    if r.chance(2, 3) {
+        return r.pick(&BAD_NAMES).to_string();
+    }
+    let lead = *r.pick(&[55usize, 60, 61, 62, 63, 64, 65, 66, 70, 126, 127, 128, 129]);
+    let mut s = "a".repeat(lead);
+    s.push(*r.pick(&['\u{e4}', '\u{20ac}', '\u{1d11e}', '.', ' ']));
+    let tail = r.usize_below(12);
+    for _ in 0..tail {
+        s.push(*r.pick(&['b', '\u{e4}', '_', '\u{20ac}']));
+    }
+    s
+}
+
+/// the same name with the case of its ASCII letters flipped (None if that changes nothing)
+fn case_flipped(s: &str) -> Option<String> {
+    let f: String = s.chars().map(|c| if c.is_ascii_lowercase() { c.to_ascii_uppercase() } else { c.to_ascii_lowercase() }).collect();
+    if f != s {
+        Some(f)
+    } else {
+        None
+    }
+}
+
 /// Turn a rule-conforming prototype into a degenerate or rule-breaking one.
 fn bad_proto(r: &mut Rng, proto: &[Rec], registered: &[String], allow_f10: bool) -> Vec<Rec> {
     use std_name::*;
@@ -168,10 +194,31 @@ fn bad_proto(r: &mut Rng, proto: &[Rec], registered: &[String], allow_f10: bool)
         }
         8 => {
             // extension attribute with unregistered namespace or malformed name
-            let (ns, name) = match r.below(3) {
+            let (ns, name) = match r.below(5) {
                 0 => ("unreg".to_string(), "attr".to_string()),
-                1 => (registered.first().cloned().unwrap_or_else(|| "unreg".into()), r.pick(&BAD_NAMES).to_string()),
-                _ => (r.pick(&BAD_NAMES).to_string(), "attr".to_string()),
+                1 => (registered.first().cloned().unwrap_or_else(|| "unreg".into()), bad_name(r)),
+                2 => (bad_name(r), "attr".to_string()),
+                _ => {
+                    // differs from a registered namespace only in letter case, by one character
+                    // at the end, or is a prefix of it: not registered
+                    let near: Vec<String> = registered
+                        .iter()
+                        .flat_map(|n| {
+                            let mut v = vec![format!("{n}1"), format!("{n}_")];
+                            v.extend(case_flipped(n));
+                            if n.len() > 1 {
+                                v.push(n[..n.len() - 1].to_string());
+                            }
+                            v
+                        })
+                        .filter(|n| !registered.contains(n) && n.is_ascii() && !n.to_ascii_lowercase().starts_with("xml"))
+                        .collect();
+                    if near.is_empty() {
+                        ("unreg".to_string(), "attr".to_string())
+                    } else {
+                        (r.pick(&near).clone(), "attr".to_string())
+                    }
+                }
             };
             p.push(Rec { name: Name::Ext { ns, name }, dt: DType::Int { min: 0, max: 9 } });
         }
@@ -298,9 +345,11 @@ pub fn gen_c10(rc: &RunCtx, allow_f10: bool) -> WriterCase {
     }
     // invalid extension registrations
     if r.chance(1, 3) {
-        let ns = match r.below(3) {
-            0 => r.pick(&BAD_NAMES).to_string(),
+        let ns = match r.below(4) {
+            0 => bad_name(&mut r),
             1 => registered.first().cloned().unwrap_or_else(|| "ext".into()),
+            // a second, distinct prefix that differs from a registered one only in letter case
+            2 => registered.first().and_then(|n| case_flipped(n)).unwrap_or_else(|| "Ext".into()),
             _ => {
                 if allow_f10 {
                     r.pick(&NON_NCNAME).to_string()
@@ -466,6 +515,7 @@ impl Prop for C10 {
                 ],
                 end: End::Finalize,
                 knob: None,
+                on_error: OnError::Stop,
             },
             wchunk: Chunk::Full,
             rchunk: Chunk::Full,
